@@ -531,7 +531,16 @@ fn apply_sack_to_sent_queue(
     let before_head = sent_queue.keys().next().cloned();
 
     // 0. Filter out late SACKs
-    if let Some(&lowest_tsn) = sent_queue.keys().next()
+    // The map is ordered numerically: while the outstanding TSNs straddle the 2^32 wrap its
+    // first key is a TSN *after* the wrap and the earliest outstanding one (serial-number
+    // order) is the first key of the upper half.
+    let earliest_outstanding = match (sent_queue.keys().next(), sent_queue.keys().next_back()) {
+        (Some(&first), Some(&last)) if (last.wrapping_sub(first) as i32) < 0 => {
+            sent_queue.range(0x8000_0000..).next().map(|(tsn, _)| *tsn)
+        }
+        (first, _) => first.copied(),
+    };
+    if let Some(lowest_tsn) = earliest_outstanding
         && (cumulative_tsn_ack.wrapping_sub(lowest_tsn.wrapping_sub(1)) as i32) < 0
     {
         // This SACK is even older than our earliest outstanding TSN,
